@@ -44,7 +44,8 @@ type Resolver struct {
 // NewResolver creates a new did:web Resolver with default TLS configuration.
 func NewResolver() *Resolver {
 	return &Resolver{
-		HttpClient: client.NewWithCache(5 * time.Second),
+		// The document must come from the host and path the DID encodes: redirects are not followed.
+		HttpClient: client.NewWithCache(5 * time.Second).WithoutRedirects(),
 	}
 }
 
